@@ -637,6 +637,11 @@ def process_response(
                 abort_on_error=abort_on_error,
             )
             size += element_size
+            if field.name == "parameters" and "parameterSize" in values:
+                yield from parameter_size_constraint.assert_done(
+                    all_size_constraints=size_constraints,
+                    abort_on_error=abort_on_error,
+                )
         except SizeConstraintExceededError as error:
             if abort_on_error or error.constraint not in (
                 response_size_constraint,
@@ -645,11 +650,6 @@ def process_response(
                 raise error
             yield WarningEvent(error=error)
             return values["responseSize"], tpm_type(**values)
-
-        if field.name == "parameters" and "parameterSize" in values:
-            yield from parameter_size_constraint.assert_done(
-                all_size_constraints=size_constraints, abort_on_error=abort_on_error
-            )
 
         if field.name == "responseSize":
             yield from response_size_constraint.set_constraint(
